@@ -22,6 +22,9 @@ import SqlLineage.Model.Assemble
 import SqlLineage.Spec.Tables
 import SqlLineage.Proofs.GraphLemmas
 
+set_option linter.unusedSimpArgs false
+set_option linter.unusedVariables false
+
 namespace SqlLineage.Proofs.ReadsExact
 open SqlLineage Ast Walk Holder Graph
 
@@ -816,5 +819,423 @@ theorem mem_rdFromExprs_iff (env : Env) (cte : List String) (t : String) :
     have h2 := mem_rdFromExprs_iff env cte t r
     simp only [Spec.rdFromExprs, dsFromExprs, mem_unionU, List.map_append, List.mem_append, h1, h2]
 end
+
+/-! ### equation lemmas of the walk that Lean cannot generate itself (all by `rfl`) -/
+
+section eqns
+variable (env : Env) (g : LGraph)
+set_option smartUnfolding false
+
+theorem sqDeep_col (q n) : sqDeep env (.col q n) g = .ok g := rfl
+theorem sqDeep_star (q) : sqDeep env (.star q) g = .ok g := rfl
+theorem sqDeep_lit (x) : sqDeep env (.lit x) g = .ok g := rfl
+theorem sqDeep_func_none (n d args) : sqDeep env (.func n d args none) g =
+    (match sqDeepL env args g with | .error x => .error x | .ok g' => .ok g') := rfl
+theorem sqDeep_func_some (n d args p o) : sqDeep env (.func n d args (some (.mk p o))) g =
+    (match sqDeepL env args g with
+      | .error x => .error x
+      | .ok g' => (match sqDeepL env p g' with | .error x => .error x | .ok g'' => sqDeepL env o g'')) := rfl
+theorem sqDeep_cast (e t) : sqDeep env (.cast e t) g = sqDeep env e g := rfl
+theorem sqDeep_case_none (ws) : sqDeep env (.case ws none) g =
+    (match sqDeepW env ws g with | .error x => .error x | .ok g' => .ok g') := rfl
+theorem sqDeep_case_some (ws e) : sqDeep env (.case ws (some e)) g =
+    (match sqDeepW env ws g with | .error x => .error x | .ok g' => sqDeep env e g') := rfl
+theorem sqDeep_bin (op a b) : sqDeep env (.bin op a b) g =
+    (match sqDeep env a g with | .error x => .error x | .ok g' => sqDeep env b g') := rfl
+theorem sqDeep_paren (e) : sqDeep env (.paren e) g = sqDeep env e g := rfl
+theorem sqDeepL_nil : sqDeepL env [] g = .ok g := rfl
+theorem sqDeepL_cons (e r) : sqDeepL env (e :: r) g =
+    (match sqDeep env e g with | .error x => .error x | .ok g' => sqDeepL env r g') := rfl
+theorem sqDeepW_nil : sqDeepW env [] g = .ok g := rfl
+theorem sqDeepW_cons (c r rest) : sqDeepW env (.mk c r :: rest) g =
+    (match sqDeep env c g with
+      | .error x => .error x
+      | .ok g' => (match sqDeep env r g' with | .error x => .error x | .ok g'' => sqDeepW env rest g'')) := rfl
+
+theorem cjExpr_col (q n) : cjExpr env (.col q n) g = .ok g := rfl
+theorem cjExpr_star (q) : cjExpr env (.star q) g = .ok g := rfl
+theorem cjExpr_lit (x) : cjExpr env (.lit x) g = .ok g := rfl
+theorem cjExpr_func_none (n d args) : cjExpr env (.func n d args none) g =
+    (match cjExprs env args g with | .error x => .error x | .ok g' => .ok g') := rfl
+theorem cjExpr_func_some (n d args p o) : cjExpr env (.func n d args (some (.mk p o))) g =
+    (match cjExprs env args g with
+      | .error x => .error x
+      | .ok g' => (match cjExprs env p g' with | .error x => .error x | .ok g'' => cjExprs env o g'')) := rfl
+theorem cjExpr_cast (e t) : cjExpr env (.cast e t) g = cjExpr env e g := rfl
+theorem cjExpr_case_none (ws) : cjExpr env (.case ws none) g =
+    (match cjWhens env ws g with | .error x => .error x | .ok g' => .ok g') := rfl
+theorem cjExpr_case_some (ws e) : cjExpr env (.case ws (some e)) g =
+    (match cjWhens env ws g with | .error x => .error x | .ok g' => cjExpr env e g') := rfl
+theorem cjExpr_bin (op a b) : cjExpr env (.bin op a b) g =
+    (match cjExpr env a g with | .error x => .error x | .ok g' => cjExpr env b g') := rfl
+theorem cjExpr_paren (e) : cjExpr env (.paren e) g = cjExpr env e g := rfl
+theorem cjExpr_subq (q) : cjExpr env (.subq q) g = cjQuery env q g := rfl
+theorem cjExpr_inSubq (e n q) : cjExpr env (.inSubq e n q) g =
+    (match cjExpr env e g with | .error x => .error x | .ok g' => cjQuery env q g') := rfl
+theorem cjExpr_exist (n q) : cjExpr env (.exist n q) g = cjQuery env q g := rfl
+theorem cjExprs_nil : cjExprs env [] g = .ok g := rfl
+theorem cjExprs_cons (e r) : cjExprs env (e :: r) g =
+    (match cjExpr env e g with | .error x => .error x | .ok g' => cjExprs env r g') := rfl
+theorem cjWhens_nil : cjWhens env [] g = .ok g := rfl
+theorem cjWhens_cons (c r rest) : cjWhens env (.mk c r :: rest) g =
+    (match cjExpr env c g with
+      | .error x => .error x
+      | .ok g' => (match cjExpr env r g' with | .error x => .error x | .ok g'' => cjWhens env rest g'')) := rfl
+theorem cjOptExpr_none : cjOptExpr env none g = .ok g := rfl
+theorem cjOptExpr_some (e) : cjOptExpr env (some e) g = cjExpr env e g := rfl
+theorem cjItems_nil : cjItems env [] g = .ok g := rfl
+theorem cjItems_cons (e a k r) : cjItems env (.mk e a k :: r) g =
+    (match cjExpr env e g with | .error x => .error x | .ok g' => cjItems env r g') := rfl
+
+theorem sqItems_nil : sqItems env [] g = .ok g := rfl
+theorem sqItems_col (q n a k r) : sqItems env (.mk (.col q n) a k :: r) g = sqItems env r g := rfl
+theorem sqItems_star (q a k r) : sqItems env (.mk (.star q) a k :: r) g = sqItems env r g := rfl
+theorem sqItems_lit (x a k r) : sqItems env (.mk (.lit x) a k :: r) g = sqItems env r g := rfl
+theorem sqItems_func (n d args over a k r) : sqItems env (.mk (.func n d args over) a k :: r) g =
+    (match sqDeep env (.func n d args over) g with | .error x => .error x | .ok g' => sqItems env r g') := by
+  cases over with
+  | none => rfl
+  | some ov => cases ov; rfl
+theorem sqItems_cast (e t a k r) : sqItems env (.mk (.cast e t) a k :: r) g =
+    (match sqDeep env e g with | .error x => .error x | .ok g' => sqItems env r g') := rfl
+theorem sqItems_case (ws els a k r) : sqItems env (.mk (.case ws els) a k :: r) g =
+    (match (match sqFirstCase env (.case ws els) a g with | .error x => Except.error x | .ok p => Except.ok p.2) with
+      | .error x => .error x | .ok g' => sqItems env r g') := rfl
+theorem sqItems_bin (op x y a k r) : sqItems env (.mk (.bin op x y) a k :: r) g =
+    (match (match sqFirstCase env (.bin op x y) a g with | .error x => Except.error x | .ok p => Except.ok p.2) with
+      | .error x => .error x | .ok g' => sqItems env r g') := rfl
+theorem sqItems_paren (x a k r) : sqItems env (.mk (.paren x) a k :: r) g =
+    (match (match sqFirstCase env (.paren x) a g with | .error x => Except.error x | .ok p => Except.ok p.2) with
+      | .error x => .error x | .ok g' => sqItems env r g') := rfl
+
+end eqns
+
+/-! ## 4. expressions without subqueries: nothing to find -/
+
+mutual
+theorem dsExpr_noSub (env : Env) (cte : List String) : (e : Expr) → noSub e = true → dsExpr env cte e = []
+  | .col _ _, _ => by simp only [dsExpr, dsExprs, dsWhens]
+  | .star _, _ => by simp only [dsExpr, dsExprs, dsWhens]
+  | .lit _, _ => by simp only [dsExpr, dsExprs, dsWhens]
+  | .func _ _ as none, h => by
+    simp only [noSub, Bool.and_true] at h
+    simp only [dsExpr, dsExprs, dsWhens, dsExpr_noSubL env cte as h, List.append_nil]
+  | .func _ _ as (some (.mk p o)), h => by
+    simp only [noSub, Bool.and_eq_true] at h
+    simp only [dsExpr, dsExprs, dsWhens, dsExpr_noSubL env cte as h.1, dsExpr_noSubL env cte p h.2.1, dsExpr_noSubL env cte o h.2.2, List.append_nil]
+  | .cast e _, h => by
+    simp only [noSub] at h
+    simp only [dsExpr, dsExprs, dsWhens, dsExpr_noSub env cte e h]
+  | .case ws none, h => by
+    simp only [noSub, Bool.and_true] at h
+    simp only [dsExpr, dsExprs, dsWhens, dsExpr_noSubW env cte ws h, List.append_nil]
+  | .case ws (some e), h => by
+    simp only [noSub, Bool.and_eq_true] at h
+    simp only [dsExpr, dsExprs, dsWhens, dsExpr_noSubW env cte ws h.1, dsExpr_noSub env cte e h.2, List.append_nil]
+  | .bin _ a b, h => by
+    simp only [noSub, Bool.and_eq_true] at h
+    simp only [dsExpr, dsExprs, dsWhens, dsExpr_noSub env cte a h.1, dsExpr_noSub env cte b h.2, List.append_nil]
+  | .paren e, h => by
+    simp only [noSub] at h
+    simp only [dsExpr, dsExprs, dsWhens, dsExpr_noSub env cte e h]
+  | .subq _, h => by simp [noSub] at h
+  | .inSubq _ _ _, h => by simp [noSub] at h
+  | .exist _ _, h => by simp [noSub] at h
+theorem dsExpr_noSubL (env : Env) (cte : List String) : (l : List Expr) → noSubL l = true → dsExprs env cte l = []
+  | [], _ => by simp only [dsExpr, dsExprs, dsWhens]
+  | e :: r, h => by
+    simp only [noSubL, Bool.and_eq_true] at h
+    simp only [dsExpr, dsExprs, dsWhens, dsExpr_noSub env cte e h.1, dsExpr_noSubL env cte r h.2, List.append_nil]
+theorem dsExpr_noSubW (env : Env) (cte : List String) : (l : List When) → noSubW l = true → dsWhens env cte l = []
+  | [], _ => by simp only [dsExpr, dsExprs, dsWhens]
+  | .mk c r :: rest, h => by
+    simp only [noSubW, Bool.and_eq_true] at h
+    simp only [dsExpr, dsExprs, dsWhens, dsExpr_noSub env cte c h.1.1, dsExpr_noSub env cte r h.1.2, dsExpr_noSubW env cte rest h.2, List.append_nil]
+end
+
+mutual
+theorem cdExpr_noSub (env : Env) (g : LGraph) : (e : Expr) → noSub e = true → cdExpr env g e = []
+  | .col _ _, _ => by simp only [cdExpr, cdExprs, cdWhens]
+  | .star _, _ => by simp only [cdExpr, cdExprs, cdWhens]
+  | .lit _, _ => by simp only [cdExpr, cdExprs, cdWhens]
+  | .func _ _ as none, h => by
+    simp only [noSub, Bool.and_true] at h
+    simp only [cdExpr, cdExprs, cdWhens, cdExpr_noSubL env g as h, List.append_nil]
+  | .func _ _ as (some (.mk p o)), h => by
+    simp only [noSub, Bool.and_eq_true] at h
+    simp only [cdExpr, cdExprs, cdWhens, cdExpr_noSubL env g as h.1, cdExpr_noSubL env g p h.2.1, cdExpr_noSubL env g o h.2.2, List.append_nil]
+  | .cast e _, h => by
+    simp only [noSub] at h
+    simp only [cdExpr, cdExprs, cdWhens, cdExpr_noSub env g e h]
+  | .case ws none, h => by
+    simp only [noSub, Bool.and_true] at h
+    simp only [cdExpr, cdExprs, cdWhens, cdExpr_noSubW env g ws h, List.append_nil]
+  | .case ws (some e), h => by
+    simp only [noSub, Bool.and_eq_true] at h
+    simp only [cdExpr, cdExprs, cdWhens, cdExpr_noSubW env g ws h.1, cdExpr_noSub env g e h.2, List.append_nil]
+  | .bin _ a b, h => by
+    simp only [noSub, Bool.and_eq_true] at h
+    simp only [cdExpr, cdExprs, cdWhens, cdExpr_noSub env g a h.1, cdExpr_noSub env g b h.2, List.append_nil]
+  | .paren e, h => by
+    simp only [noSub] at h
+    simp only [cdExpr, cdExprs, cdWhens, cdExpr_noSub env g e h]
+  | .subq _, h => by simp [noSub] at h
+  | .inSubq _ _ _, h => by simp [noSub] at h
+  | .exist _ _, h => by simp [noSub] at h
+theorem cdExpr_noSubL (env : Env) (g : LGraph) : (l : List Expr) → noSubL l = true → cdExprs env g l = []
+  | [], _ => by simp only [cdExpr, cdExprs, cdWhens]
+  | e :: r, h => by
+    simp only [noSubL, Bool.and_eq_true] at h
+    simp only [cdExpr, cdExprs, cdWhens, cdExpr_noSub env g e h.1, cdExpr_noSubL env g r h.2, List.append_nil]
+theorem cdExpr_noSubW (env : Env) (g : LGraph) : (l : List When) → noSubW l = true → cdWhens env g l = []
+  | [], _ => by simp only [cdExpr, cdExprs, cdWhens]
+  | .mk c r :: rest, h => by
+    simp only [noSubW, Bool.and_eq_true] at h
+    simp only [cdExpr, cdExprs, cdWhens, cdExpr_noSub env g c h.1.1, cdExpr_noSub env g r h.1.2, cdExpr_noSubW env g rest h.2, List.append_nil]
+end
+
+mutual
+theorem sqDeep_noSub (env : Env) (g : LGraph) : (e : Expr) → noSub e = true → sqDeep env e g = .ok g
+  | .col _ _, _ => by simp only [sqDeep_col, sqDeep_star, sqDeep_lit, sqDeep_func_none, sqDeep_func_some, sqDeep_cast, sqDeep_case_none, sqDeep_case_some, sqDeep_bin, sqDeep_paren, sqDeepL_nil, sqDeepL_cons, sqDeepW_nil, sqDeepW_cons]
+  | .star _, _ => by simp only [sqDeep_col, sqDeep_star, sqDeep_lit, sqDeep_func_none, sqDeep_func_some, sqDeep_cast, sqDeep_case_none, sqDeep_case_some, sqDeep_bin, sqDeep_paren, sqDeepL_nil, sqDeepL_cons, sqDeepW_nil, sqDeepW_cons]
+  | .lit _, _ => by simp only [sqDeep_col, sqDeep_star, sqDeep_lit, sqDeep_func_none, sqDeep_func_some, sqDeep_cast, sqDeep_case_none, sqDeep_case_some, sqDeep_bin, sqDeep_paren, sqDeepL_nil, sqDeepL_cons, sqDeepW_nil, sqDeepW_cons]
+  | .func _ _ as none, h => by
+    simp only [noSub, Bool.and_true] at h
+    simp only [sqDeep_col, sqDeep_star, sqDeep_lit, sqDeep_func_none, sqDeep_func_some, sqDeep_cast, sqDeep_case_none, sqDeep_case_some, sqDeep_bin, sqDeep_paren, sqDeepL_nil, sqDeepL_cons, sqDeepW_nil, sqDeepW_cons, sqDeep_noSubL env g as h]
+  | .func _ _ as (some (.mk p o)), h => by
+    simp only [noSub, Bool.and_eq_true] at h
+    simp only [sqDeep_col, sqDeep_star, sqDeep_lit, sqDeep_func_none, sqDeep_func_some, sqDeep_cast, sqDeep_case_none, sqDeep_case_some, sqDeep_bin, sqDeep_paren, sqDeepL_nil, sqDeepL_cons, sqDeepW_nil, sqDeepW_cons, sqDeep_noSubL env g as h.1, sqDeep_noSubL env g p h.2.1, sqDeep_noSubL env g o h.2.2]
+  | .cast e _, h => by
+    simp only [noSub] at h
+    simp only [sqDeep_col, sqDeep_star, sqDeep_lit, sqDeep_func_none, sqDeep_func_some, sqDeep_cast, sqDeep_case_none, sqDeep_case_some, sqDeep_bin, sqDeep_paren, sqDeepL_nil, sqDeepL_cons, sqDeepW_nil, sqDeepW_cons, sqDeep_noSub env g e h]
+  | .case ws none, h => by
+    simp only [noSub, Bool.and_true] at h
+    simp only [sqDeep_col, sqDeep_star, sqDeep_lit, sqDeep_func_none, sqDeep_func_some, sqDeep_cast, sqDeep_case_none, sqDeep_case_some, sqDeep_bin, sqDeep_paren, sqDeepL_nil, sqDeepL_cons, sqDeepW_nil, sqDeepW_cons, sqDeep_noSubW env g ws h]
+  | .case ws (some e), h => by
+    simp only [noSub, Bool.and_eq_true] at h
+    simp only [sqDeep_col, sqDeep_star, sqDeep_lit, sqDeep_func_none, sqDeep_func_some, sqDeep_cast, sqDeep_case_none, sqDeep_case_some, sqDeep_bin, sqDeep_paren, sqDeepL_nil, sqDeepL_cons, sqDeepW_nil, sqDeepW_cons, sqDeep_noSubW env g ws h.1, sqDeep_noSub env g e h.2]
+  | .bin _ a b, h => by
+    simp only [noSub, Bool.and_eq_true] at h
+    simp only [sqDeep_col, sqDeep_star, sqDeep_lit, sqDeep_func_none, sqDeep_func_some, sqDeep_cast, sqDeep_case_none, sqDeep_case_some, sqDeep_bin, sqDeep_paren, sqDeepL_nil, sqDeepL_cons, sqDeepW_nil, sqDeepW_cons, sqDeep_noSub env g a h.1, sqDeep_noSub env g b h.2]
+  | .paren e, h => by
+    simp only [noSub] at h
+    simp only [sqDeep_col, sqDeep_star, sqDeep_lit, sqDeep_func_none, sqDeep_func_some, sqDeep_cast, sqDeep_case_none, sqDeep_case_some, sqDeep_bin, sqDeep_paren, sqDeepL_nil, sqDeepL_cons, sqDeepW_nil, sqDeepW_cons, sqDeep_noSub env g e h]
+  | .subq _, h => by simp [noSub] at h
+  | .inSubq _ _ _, h => by simp [noSub] at h
+  | .exist _ _, h => by simp [noSub] at h
+theorem sqDeep_noSubL (env : Env) (g : LGraph) : (l : List Expr) → noSubL l = true → sqDeepL env l g = .ok g
+  | [], _ => by simp only [sqDeep_col, sqDeep_star, sqDeep_lit, sqDeep_func_none, sqDeep_func_some, sqDeep_cast, sqDeep_case_none, sqDeep_case_some, sqDeep_bin, sqDeep_paren, sqDeepL_nil, sqDeepL_cons, sqDeepW_nil, sqDeepW_cons]
+  | e :: r, h => by
+    simp only [noSubL, Bool.and_eq_true] at h
+    simp only [sqDeep_col, sqDeep_star, sqDeep_lit, sqDeep_func_none, sqDeep_func_some, sqDeep_cast, sqDeep_case_none, sqDeep_case_some, sqDeep_bin, sqDeep_paren, sqDeepL_nil, sqDeepL_cons, sqDeepW_nil, sqDeepW_cons, sqDeep_noSub env g e h.1, sqDeep_noSubL env g r h.2]
+theorem sqDeep_noSubW (env : Env) (g : LGraph) : (l : List When) → noSubW l = true → sqDeepW env l g = .ok g
+  | [], _ => by simp only [sqDeep_col, sqDeep_star, sqDeep_lit, sqDeep_func_none, sqDeep_func_some, sqDeep_cast, sqDeep_case_none, sqDeep_case_some, sqDeep_bin, sqDeep_paren, sqDeepL_nil, sqDeepL_cons, sqDeepW_nil, sqDeepW_cons]
+  | .mk c r :: rest, h => by
+    simp only [noSubW, Bool.and_eq_true] at h
+    simp only [sqDeep_col, sqDeep_star, sqDeep_lit, sqDeep_func_none, sqDeep_func_some, sqDeep_cast, sqDeep_case_none, sqDeep_case_some, sqDeep_bin, sqDeep_paren, sqDeepL_nil, sqDeepL_cons, sqDeepW_nil, sqDeepW_cons, sqDeep_noSub env g c h.1.1, sqDeep_noSub env g r h.1.2, sqDeep_noSubW env g rest h.2]
+end
+
+mutual
+theorem cjExpr_noSub (env : Env) (g : LGraph) : (e : Expr) → noSub e = true → cjExpr env e g = .ok g
+  | .col _ _, _ => by simp only [cjExpr_col, cjExpr_star, cjExpr_lit, cjExpr_func_none, cjExpr_func_some, cjExpr_cast, cjExpr_case_none, cjExpr_case_some, cjExpr_bin, cjExpr_paren, cjExprs_nil, cjExprs_cons, cjWhens_nil, cjWhens_cons]
+  | .star _, _ => by simp only [cjExpr_col, cjExpr_star, cjExpr_lit, cjExpr_func_none, cjExpr_func_some, cjExpr_cast, cjExpr_case_none, cjExpr_case_some, cjExpr_bin, cjExpr_paren, cjExprs_nil, cjExprs_cons, cjWhens_nil, cjWhens_cons]
+  | .lit _, _ => by simp only [cjExpr_col, cjExpr_star, cjExpr_lit, cjExpr_func_none, cjExpr_func_some, cjExpr_cast, cjExpr_case_none, cjExpr_case_some, cjExpr_bin, cjExpr_paren, cjExprs_nil, cjExprs_cons, cjWhens_nil, cjWhens_cons]
+  | .func _ _ as none, h => by
+    simp only [noSub, Bool.and_true] at h
+    simp only [cjExpr_col, cjExpr_star, cjExpr_lit, cjExpr_func_none, cjExpr_func_some, cjExpr_cast, cjExpr_case_none, cjExpr_case_some, cjExpr_bin, cjExpr_paren, cjExprs_nil, cjExprs_cons, cjWhens_nil, cjWhens_cons, cjExpr_noSubL env g as h]
+  | .func _ _ as (some (.mk p o)), h => by
+    simp only [noSub, Bool.and_eq_true] at h
+    simp only [cjExpr_col, cjExpr_star, cjExpr_lit, cjExpr_func_none, cjExpr_func_some, cjExpr_cast, cjExpr_case_none, cjExpr_case_some, cjExpr_bin, cjExpr_paren, cjExprs_nil, cjExprs_cons, cjWhens_nil, cjWhens_cons, cjExpr_noSubL env g as h.1, cjExpr_noSubL env g p h.2.1, cjExpr_noSubL env g o h.2.2]
+  | .cast e _, h => by
+    simp only [noSub] at h
+    simp only [cjExpr_col, cjExpr_star, cjExpr_lit, cjExpr_func_none, cjExpr_func_some, cjExpr_cast, cjExpr_case_none, cjExpr_case_some, cjExpr_bin, cjExpr_paren, cjExprs_nil, cjExprs_cons, cjWhens_nil, cjWhens_cons, cjExpr_noSub env g e h]
+  | .case ws none, h => by
+    simp only [noSub, Bool.and_true] at h
+    simp only [cjExpr_col, cjExpr_star, cjExpr_lit, cjExpr_func_none, cjExpr_func_some, cjExpr_cast, cjExpr_case_none, cjExpr_case_some, cjExpr_bin, cjExpr_paren, cjExprs_nil, cjExprs_cons, cjWhens_nil, cjWhens_cons, cjExpr_noSubW env g ws h]
+  | .case ws (some e), h => by
+    simp only [noSub, Bool.and_eq_true] at h
+    simp only [cjExpr_col, cjExpr_star, cjExpr_lit, cjExpr_func_none, cjExpr_func_some, cjExpr_cast, cjExpr_case_none, cjExpr_case_some, cjExpr_bin, cjExpr_paren, cjExprs_nil, cjExprs_cons, cjWhens_nil, cjWhens_cons, cjExpr_noSubW env g ws h.1, cjExpr_noSub env g e h.2]
+  | .bin _ a b, h => by
+    simp only [noSub, Bool.and_eq_true] at h
+    simp only [cjExpr_col, cjExpr_star, cjExpr_lit, cjExpr_func_none, cjExpr_func_some, cjExpr_cast, cjExpr_case_none, cjExpr_case_some, cjExpr_bin, cjExpr_paren, cjExprs_nil, cjExprs_cons, cjWhens_nil, cjWhens_cons, cjExpr_noSub env g a h.1, cjExpr_noSub env g b h.2]
+  | .paren e, h => by
+    simp only [noSub] at h
+    simp only [cjExpr_col, cjExpr_star, cjExpr_lit, cjExpr_func_none, cjExpr_func_some, cjExpr_cast, cjExpr_case_none, cjExpr_case_some, cjExpr_bin, cjExpr_paren, cjExprs_nil, cjExprs_cons, cjWhens_nil, cjWhens_cons, cjExpr_noSub env g e h]
+  | .subq _, h => by simp [noSub] at h
+  | .inSubq _ _ _, h => by simp [noSub] at h
+  | .exist _ _, h => by simp [noSub] at h
+theorem cjExpr_noSubL (env : Env) (g : LGraph) : (l : List Expr) → noSubL l = true → cjExprs env l g = .ok g
+  | [], _ => by simp only [cjExpr_col, cjExpr_star, cjExpr_lit, cjExpr_func_none, cjExpr_func_some, cjExpr_cast, cjExpr_case_none, cjExpr_case_some, cjExpr_bin, cjExpr_paren, cjExprs_nil, cjExprs_cons, cjWhens_nil, cjWhens_cons]
+  | e :: r, h => by
+    simp only [noSubL, Bool.and_eq_true] at h
+    simp only [cjExpr_col, cjExpr_star, cjExpr_lit, cjExpr_func_none, cjExpr_func_some, cjExpr_cast, cjExpr_case_none, cjExpr_case_some, cjExpr_bin, cjExpr_paren, cjExprs_nil, cjExprs_cons, cjWhens_nil, cjWhens_cons, cjExpr_noSub env g e h.1, cjExpr_noSubL env g r h.2]
+theorem cjExpr_noSubW (env : Env) (g : LGraph) : (l : List When) → noSubW l = true → cjWhens env l g = .ok g
+  | [], _ => by simp only [cjExpr_col, cjExpr_star, cjExpr_lit, cjExpr_func_none, cjExpr_func_some, cjExpr_cast, cjExpr_case_none, cjExpr_case_some, cjExpr_bin, cjExpr_paren, cjExprs_nil, cjExprs_cons, cjWhens_nil, cjWhens_cons]
+  | .mk c r :: rest, h => by
+    simp only [noSubW, Bool.and_eq_true] at h
+    simp only [cjExpr_col, cjExpr_star, cjExpr_lit, cjExpr_func_none, cjExpr_func_some, cjExpr_cast, cjExpr_case_none, cjExpr_case_some, cjExpr_bin, cjExpr_paren, cjExprs_nil, cjExprs_cons, cjWhens_nil, cjWhens_cons, cjExpr_noSub env g c h.1.1, cjExpr_noSub env g r h.1.2, cjExpr_noSubW env g rest h.2]
+end
+
+theorem dsOpt_noSub (env : Env) (cte : List String) (o : Option Expr) (h : noSubOpt o = true) : dsOpt env cte o = [] := by
+  cases o with
+  | none => simp only [dsOpt]
+  | some e => simp only [noSubOpt] at h; simp only [dsOpt, dsExpr_noSub env cte e h]
+
+theorem dsItems_noSub (env : Env) (cte : List String) (its : List Item) (h : noSubI its = true) : dsItems env cte its = [] := by
+  induction its with
+  | nil => simp only [dsItems]
+  | cons it r ih =>
+    cases it with
+    | mk e a k =>
+      simp only [noSubI, Bool.and_eq_true] at h
+      simp only [dsItems, dsExpr_noSub env cte e h.1, ih h.2, List.append_nil]
+
+theorem cdItems_noSub (env : Env) (g : LGraph) (its : List Item) (h : noSubI its = true) : cdItems env g its = [] := by
+  induction its with
+  | nil => simp only [cdItems]
+  | cons it r ih =>
+    cases it with
+    | mk e a k =>
+      simp only [noSubI, Bool.and_eq_true] at h
+      simp only [cdItems, cdExpr_noSub env g e h.1, ih h.2, List.append_nil]
+
+theorem cjOptExpr_noSub (env : Env) (g : LGraph) (o : Option Expr) (h : noSubOpt o = true) : cjOptExpr env o g = .ok g := by
+  cases o with
+  | none => simp only [cjOptExpr_none]
+  | some e => simp only [noSubOpt] at h; simp only [cjOptExpr_some, cjExpr_noSub env g e h]
+
+theorem cjItems_noSub (env : Env) (its : List Item) (g : LGraph) (h : noSubI its = true) : cjItems env its g = .ok g := by
+  induction its with
+  | nil => simp only [cjItems_nil]
+  | cons it r ih =>
+    cases it with
+    | mk e a k =>
+      simp only [noSubI, Bool.and_eq_true] at h
+      simp only [cjItems_cons, cjExpr_noSub env g e h.1, ih h.2]
+
+/-- the CASE branch of `list_subqueries` (`inner = false`) finds nothing -/
+theorem sqDirect_false_noSub (env : Env) (alias : Option String) (g : LGraph) :
+    (e : Expr) → noSub e = true → sqDirect env false e alias g = .ok g
+  | .bin _ a b, h => by
+    simp only [noSub, Bool.and_eq_true] at h
+    simp only [sqDirect, sqDirect_false_noSub env alias g a h.1, sqDirect_false_noSub env alias g b h.2]
+  | .subq _, h => by simp [noSub] at h
+  | .inSubq _ _ _, h => by simp [noSub] at h
+  | .exist _ _, h => by simp [noSub] at h
+  | .paren _, _ => by simp [sqDirect]
+  | .col _ _, _ => by simp only [sqDirect]
+  | .star _, _ => by simp only [sqDirect]
+  | .lit _, _ => by simp only [sqDirect]
+  | .func _ _ _ _, _ => by simp only [sqDirect]
+  | .cast _ _, _ => by simp only [sqDirect]
+  | .case _ _, _ => by simp only [sqDirect]
+
+theorem sqParenChain_noSub (env : Env) (alias : Option String) (g : LGraph) :
+    (e : Expr) → noSub e = true → ∃ b, sqParenChain env e alias g = .ok (b, g)
+  | .bin _ a b, h => by
+    simp only [noSub, Bool.and_eq_true] at h
+    obtain ⟨b1, h1⟩ := sqParenChain_noSub env alias g a h.1
+    obtain ⟨b2, h2⟩ := sqParenChain_noSub env alias g b h.2
+    cases b1
+    · exact ⟨b2, by simp only [sqParenChain, h1, h2]⟩
+    · exact ⟨true, by simp only [sqParenChain, h1]⟩
+  | .subq _, h => by simp [noSub] at h
+  | .inSubq _ _ _, h => by simp [noSub] at h
+  | .exist _ _, h => by simp [noSub] at h
+  | .paren e, h => by
+    simp only [noSub] at h
+    obtain ⟨b1, h1⟩ := sqParenChain_noSub env alias g e h
+    exact ⟨true, by simp only [sqParenChain, h1]⟩
+  | .col _ _, _ => ⟨false, by simp only [sqParenChain]⟩
+  | .star _, _ => ⟨false, by simp only [sqParenChain]⟩
+  | .lit _, _ => ⟨false, by simp only [sqParenChain]⟩
+  | .func _ _ _ _, _ => ⟨false, by simp only [sqParenChain]⟩
+  | .cast _ _, _ => ⟨false, by simp only [sqParenChain]⟩
+  | .case _ _, _ => ⟨false, by simp only [sqParenChain]⟩
+
+/-- the WHERE branch of `list_subqueries` (`inner = true`) finds nothing in an expression without subqueries -/
+theorem sqDirect_true_noSub (env : Env) (alias : Option String) (g : LGraph) :
+    (e : Expr) → noSub e = true → sqDirect env true e alias g = .ok g
+  | .bin _ a b, h => by
+    simp only [noSub, Bool.and_eq_true] at h
+    simp only [sqDirect, sqDirect_true_noSub env alias g a h.1, sqDirect_true_noSub env alias g b h.2]
+  | .subq _, h => by simp [noSub] at h
+  | .inSubq _ _ _, h => by simp [noSub] at h
+  | .exist _ _, h => by simp [noSub] at h
+  | .paren e, h => by
+    simp only [noSub] at h
+    obtain ⟨b1, h1⟩ := sqParenChain_noSub env alias g e h
+    simp [sqDirect, h1]
+  | .col _ _, _ => by simp only [sqDirect]
+  | .star _, _ => by simp only [sqDirect]
+  | .lit _, _ => by simp only [sqDirect]
+  | .func _ _ _ _, _ => by simp only [sqDirect]
+  | .cast _ _, _ => by simp only [sqDirect]
+  | .case _ _, _ => by simp only [sqDirect]
+
+theorem sqWhens_noSub (env : Env) (alias : Option String) (ws : List When) (g : LGraph) (h : noSubW ws = true) :
+    sqWhens env ws alias g = .ok g := by
+  induction ws with
+  | nil => simp only [sqWhens]
+  | cons w r ih =>
+    cases w with
+    | mk c x =>
+      simp only [noSubW, Bool.and_eq_true] at h
+      simp only [sqWhens, sqDirect_false_noSub env none g c h.1.1, sqDirect_false_noSub env alias g x h.1.2, ih h.2]
+
+theorem sqFirstCase_noSub (env : Env) (alias : Option String) (g : LGraph) :
+    (e : Expr) → noSub e = true → ∃ b, sqFirstCase env e alias g = .ok (b, g)
+  | .bin _ a b, h => by
+    simp only [noSub, Bool.and_eq_true] at h
+    obtain ⟨b1, h1⟩ := sqFirstCase_noSub env alias g a h.1
+    obtain ⟨b2, h2⟩ := sqFirstCase_noSub env alias g b h.2
+    cases b1
+    · exact ⟨b2, by simp only [sqFirstCase, h1, h2]⟩
+    · exact ⟨true, by simp only [sqFirstCase, h1]⟩
+  | .case ws none, h => by
+    simp only [noSub, Bool.and_true] at h
+    exact ⟨true, by simp only [sqFirstCase, sqWhens_noSub env alias ws g h]⟩
+  | .case ws (some _), h => by
+    simp only [noSub, Bool.and_eq_true] at h
+    exact ⟨true, by simp only [sqFirstCase, sqWhens_noSub env alias ws g h.1]⟩
+  | .subq _, _ => ⟨false, by simp only [sqFirstCase]⟩
+  | .inSubq _ _ _, _ => ⟨false, by simp only [sqFirstCase]⟩
+  | .exist _ _, _ => ⟨false, by simp only [sqFirstCase]⟩
+  | .paren _, _ => ⟨false, by simp only [sqFirstCase]⟩
+  | .col _ _, _ => ⟨false, by simp only [sqFirstCase]⟩
+  | .star _, _ => ⟨false, by simp only [sqFirstCase]⟩
+  | .lit _, _ => ⟨false, by simp only [sqFirstCase]⟩
+  | .func _ _ _ _, _ => ⟨false, by simp only [sqFirstCase]⟩
+  | .cast _ _, _ => ⟨false, by simp only [sqFirstCase]⟩
+
+/-- select items without subqueries: `list_subqueries(select_clause)` finds nothing -/
+theorem sqItems_noSub (env : Env) (its : List Item) (g : LGraph) (h : noSubI its = true) : sqItems env its g = .ok g := by
+  induction its with
+  | nil => rfl
+  | cons it r ih =>
+    cases it with
+    | mk e a k =>
+      simp only [noSubI, Bool.and_eq_true] at h
+      have h1 := h.1
+      cases e with
+      | col _ _ => simp only [sqItems_col, ih h.2]
+      | star _ => simp only [sqItems_star, ih h.2]
+      | lit _ => simp only [sqItems_lit, ih h.2]
+      | func n d as over => simp only [sqItems_func, sqDeep_noSub env g _ h1, ih h.2]
+      | cast e' _ =>
+        simp only [noSub] at h1
+        simp only [sqItems_cast, sqDeep_noSub env g e' h1, ih h.2]
+      | case ws els =>
+        obtain ⟨b, hb⟩ := sqFirstCase_noSub env a g _ h1
+        simp only [sqItems_case, hb, ih h.2]
+      | bin op x y =>
+        obtain ⟨b, hb⟩ := sqFirstCase_noSub env a g _ h1
+        simp only [sqItems_bin, hb, ih h.2]
+      | paren x =>
+        obtain ⟨b, hb⟩ := sqFirstCase_noSub env a g _ h1
+        simp only [sqItems_paren, hb, ih h.2]
+      | subq _ => simp [noSub] at h1
+      | inSubq _ _ _ => simp [noSub] at h1
+      | exist _ _ => simp [noSub] at h1
 
 end SqlLineage.Proofs.ReadsExact
